@@ -25,7 +25,32 @@ def conc_cfg(cap=200, kind="opt", minseg=8, retries=2, backend="vec", unify=Fals
     return c
 
 
-def run_conc(binary, drivers, tag, timeout=1800, keep_files=False):
+def sanitize(lines):
+    """The harness never writes `null` and never writes a malformed record: one that is there was produced by a process
+    whose own memory had been overwritten (an arena that zeroes or links beyond its buffer corrupts the heap it lives in).
+    Such a record ends its driver as a death -- data, not a tool error -- and the rest of that driver is not looked at."""
+    out, skipping = [], False
+    for l in lines:
+        is_reset = l.startswith('{"cfg"') or '"ev":"reset"' in l[:400]
+        if is_reset:
+            skipping = False
+        if skipping:
+            continue
+        bad = "null" in l
+        if not bad:
+            try:
+                json.loads(l)
+            except ValueError:
+                bad = True
+        if bad and not is_reset:
+            out.append(json.dumps({"ev": "died", "rc": -997}) + "\n")
+            skipping = True
+            continue
+        out.append(l)
+    return out
+
+
+def run_conc(binary, drivers, tag, timeout=600, keep_files=False):
     """Run conc drivers; a stuck driver ends the process (exit 3): restart with the remaining drivers."""
     wd = rv.ensure_dir(os.path.join(rv.WORK, "conc", tag))
     tfile = os.path.join(wd, "trace.ndjson")
@@ -36,7 +61,8 @@ def run_conc(binary, drivers, tag, timeout=1800, keep_files=False):
         dfile = os.path.join(wd, "drivers.%d.ndjson" % part)
         ofile = os.path.join(wd, "out.%d.ndjson" % part)
         rv.write_ndjson(dfile, pending)
-        rc, out, _ = rv.run_harness(binary, "conc", [dfile, ofile, os.path.join(wd, "files")], timeout=timeout, allow_fail=True)
+        rc, out, _ = rv.run_harness(binary, "conc", [dfile, ofile, os.path.join(wd, "files")], timeout=timeout, allow_fail=True,
+                                    watch=ofile, stall=45)
         with open(ofile) as f:
             got = [l for l in f.readlines() if l.endswith("\n")]
         out_lines += got
@@ -55,6 +81,7 @@ def run_conc(binary, drivers, tag, timeout=1800, keep_files=False):
         out_lines.append(json.dumps({"ev": "died", "rc": rc}) + "\n")
         pending = pending[n_reset:]
         part += 1
+    out_lines = sanitize(out_lines)
     with open(tfile, "w") as f:
         f.writelines(out_lines)
     if not keep_files:
